@@ -429,7 +429,8 @@ def _nothing_runs(ck, repo):
         ck.ob(f"{name}: nothing is executed on the error branch", not others, f, others[0] if others else f.node, construct=f"gate:{name}:no-exec")
     for name, ex in (("Engine.execute", "_query_executor"), ("Engine.subscribe", "_subscription_executor")):
         f = repo.func("tartiflette/engine.py", name)
-        fv = FuncView(f)
+        from ..q import inlined_view as _iv
+        fv = _iv(repo, f)
         pc = fv.maybe_call("_cached_parse_and_validate_query")
         st = fv.stmt_of(pc) if pc is not None else None
         ok = isinstance(st, ast.Assign) and isinstance(st.targets[0], ast.Tuple) and len(st.targets[0].elts) == 2
